@@ -48,11 +48,53 @@ def plumbing(chk):
                                   {"case": c, "impl_log": line[:2000]}, True, "timeout-not-applied")
                     break
     chk.cov["evaluations"] += len(cases)
-    chk.cov["timeout_plumbing"] = {"histories": len(cases), "sockets_read_back": n, "values_ms": vals}
+    chk.cov.setdefault("timeout_plumbing", {}).update({"histories": len(cases), "sockets_read_back": n, "values_ms": vals})
+
+
+def plumbing_real(chk):
+    """the same through the public interface only, on real sockets (cpp/h_real.cpp): the server is already listening when
+    set_timeout() is called, a client connects, the handler reads the options back from the accepted socket"""
+    rng = chk.rng
+    vals = [0, 1, 5, 300, 999, 1000, 1001, 1500, 59999, 2147483, 2147484, 2700000, 3600000, 4300000, 86400000]
+    hr, hlog = vlib.build_harness("h_real")
+    if not hr:
+        chk.broken.append("harness h_real does not compile against the current tree: " + hlog[-600:])
+        return
+    rcases, rexps = [], []
+    for _ in range(6 if chk.tier == "quick" else 60):
+        ev, exp, cur = [], [], 0
+        for _ in range(rng.randint(3, 8)):
+            if rng.random() < 0.5:
+                cur = rng.choice(vals); ev.append("Z%d" % cur)
+            else:
+                ev.append("A"); exp.append(cur)
+        rcases.append("timeo " + ",".join(ev)); rexps.append(exp)
+    m = 0
+    for c, exp in zip(rcases, rexps):
+        out, rc, err = vlib.run_cases(hr, [c], timeout=120)
+        line = out[0] if out else ""
+        got = re.findall(r"(\d+)\.(\d+)/(\d+)\.(\d+)", line)
+        if len(got) != len(exp):
+            chk.violation("real sockets: timeouts read back from %d accepted sockets, %d connections made" % (len(got), len(exp)), {"case": c, "harness": "h_real", "result": line[:500]}, True, "timeout-not-applied")
+            continue
+        for k, (g, want) in enumerate(zip(got, exp)):
+            m += 1
+            bad = False
+            for sec, usec in ((int(g[0]), int(g[1])), (int(g[2]), int(g[3]))):
+                ms = sec * 1000 + usec / 1000.0
+                bad = bad or (want == 0) != (ms == 0) or abs(ms - want) > 10
+            if bad:
+                chk.violation("real sockets: connection %d was accepted with set_timeout(%d) in force but its socket timeouts are %s.%s s / %s.%s s" % ((k + 1, want) + g),
+                              {"case": c, "harness": "h_real", "result": line[:500]}, True, "timeout-not-applied")
+                break
+    chk.cov["evaluations"] += len(rcases)
+    chk.cov.setdefault("timeout_plumbing", {})["real_socket_histories"] = len(rcases)
+    chk.cov["timeout_plumbing"]["real_sockets_read_back"] = m
 
 
 def run(chk):
     chk.prove("Properties_C20")
+    plumbing_real(chk)
     pairs = simcheck.run_sim(chk, only=lambda h: h["name"].startswith("idle ticks") or h["name"] == "sequential")
     timer, sockopt = source_has_timer()
     chk.cov["source"] = {"connection_has_a_timer": timer, "uses_SO_RCVTIMEO": sockopt}
